@@ -74,6 +74,10 @@ func (in *Interp) binop(op token.Token, t types.Type, x, y Value) Value {
 			}
 			return r
 		}
+		// comparisons of a symbolic (finite, Real-abstracted) value with a concrete infinity
+		if r, ok := in.cmpInf(op, x, y); ok {
+			return r
+		}
 		a, b := in.realTerm(x), in.realTerm(y)
 		switch op {
 		case token.ADD:
@@ -609,10 +613,8 @@ func (in *Interp) convert(from, to types.Type, x Value) Value {
 				}
 				return f
 			case *Term:
-				if fs {
-					return in.tt.Un(OpI2R, SortReal, in.tt.Un(OpSBV2Int, SortInt, v))
-				}
-				return in.tt.Un(OpI2R, SortReal, in.tt.Un(OpBV2Int, SortInt, v))
+				it, _, _ := in.bvToInt(v, fs)
+				return in.tt.Un(OpI2R, SortReal, it)
 			}
 		}
 		if isString(to) {
@@ -854,4 +856,45 @@ func (in *Interp) decodeRune(b []Value, pos int) (Value, int) {
 	}
 	r := tt.Bin(OpOr, tt.Bin(OpOr, shl(z(b0, 0x07), 18), shl(z(b1, 0x3F), 12)), tt.Bin(OpOr, shl(z(b2, 0x3F), 6), z(b3, 0x3F)))
 	return ret(r), 4
+}
+
+func (in *Interp) cmpInf(op token.Token, x, y Value) (Value, bool) {
+	xf, xok := x.(float64)
+	yf, yok := y.(float64)
+	xi := xok && math.IsInf(xf, 0)
+	yi := yok && math.IsInf(yf, 0)
+	if !xi && !yi {
+		return nil, false
+	}
+	// the other operand is a finite symbolic value
+	var inf float64
+	swap := false
+	if xi {
+		inf = xf
+		swap = true
+	} else {
+		inf = yf
+	}
+	pos := inf > 0
+	// result of (finite OP inf)
+	var r bool
+	switch op {
+	case token.EQL:
+		r = false
+	case token.NEQ:
+		r = true
+	case token.LSS, token.LEQ:
+		r = pos
+		if swap {
+			r = !pos
+		}
+	case token.GTR, token.GEQ:
+		r = !pos
+		if swap {
+			r = pos
+		}
+	default:
+		return nil, false
+	}
+	return r, true
 }
